@@ -42,6 +42,7 @@ const (
 	KSealBadV          = "seal-bad-v"
 	KExtraShort        = "extra-short"
 	KTamperAfterSeal   = "tamper-after-seal"
+	KRevisionNumber    = "revision-number"
 	KSkipOne           = "skip-one"
 	KResubmitOld       = "resubmit-old"
 	KResubmitLatest    = "resubmit-latest"
@@ -57,7 +58,7 @@ var FieldKinds = []string{
 	KValsOnNonEpoch, KValsOddLength, KEpochNoVals, KMixDigest, KUncleHash, KCoinbaseOther,
 	KSignerOutsider, KSignerNotInForce, KSignerRecent, KChainID,
 	KTimeEqualParent, KTimeBeforeParent, KTimeFarFuture,
-	KSealZero, KSealBitflip, KSealBadV, KExtraShort, KTamperAfterSeal, KSignerJustShifted,
+	KSealZero, KSealBitflip, KSealBadV, KExtraShort, KTamperAfterSeal, KSignerJustShifted, KRevisionNumber,
 }
 
 var SequenceKinds = []string{KSkipOne, KResubmitOld, KResubmitLatest, KSiblingOfLatest}
@@ -362,6 +363,8 @@ func (c *Chain) Corrupt(kind string) (*Submission, error) {
 			return nil, err
 		}
 		sealed = true
+	case KRevisionNumber:
+		h.Height.RevisionNumber = parent.Height.RevisionNumber + uint64(ch.Range(1, 9))
 	case KTimeEqualParent:
 		h.Time = parent.Time
 	case KTimeBeforeParent:
